@@ -405,3 +405,32 @@ Definition im_handle (fuel : nat) (max_paths : nat) (who : accessor) (c0 : confi
           else go (rq_flag rq)
       end
   end.
+
+(** * A write continued over several chunks (im.rs: the loop of [write])
+
+    Every chunk is a WriteRequest message of its own on the same exchange:
+    its own TimedRequest flag is checked against the (one) TimedRequest that
+    opened the exchange and against the clock at the time the chunk is
+    handled, it is expanded by a fresh expander (the [last_authorized] cache
+    does not span chunks) and answered by its own WriteResponse.  A chunk
+    refused by the gate ends the interaction. *)
+Record wchunk := mkChunk {
+  ch_flag : bool;            (* the chunk's own TimedRequest flag *)
+  ch_elapsed : N;            (* ms since the TimedRequest was handled, when this chunk is *)
+  ch_items : list item
+}.
+
+Definition chunk_req (win : option N) (ff : bool) (ch : wchunk) : imreq :=
+  mkReqst win (ch_elapsed ch) Write (ch_flag ch) ff (ch_items ch).
+
+Fixpoint write_chunked (fuel max_paths : nat) (who : accessor) (c0 : config) (sw : list (nat * config))
+  (win : option N) (ff : bool) (chunks : list wchunk) : list imresp :=
+  match chunks with
+  | [] => []
+  | ch :: rest =>
+      let r := im_handle fuel max_paths who c0 sw (chunk_req win ff ch) in
+      match r with
+      | RespItems _ _ => r :: write_chunked fuel max_paths who c0 sw win ff rest
+      | _ => [r]
+      end
+  end.
